@@ -263,5 +263,6 @@ def cargo_parse(cargo_ver: str) -> T.Callable[[str], bool]:
         return True
 
     if not out:
-        return lambda v: True
+        # '*' or an empty requirement: any release, but never a pre-release
+        return lambda v: not SemVer(v).has_prerelease
     return compare
